@@ -36,6 +36,12 @@ PROPS: dict[str, dict] = {
                         "thread interleavings are not explored: the postcondition of a call depends only on that call's own uuid, not on the shared counter, so it holds under every schedule"],
         "explanation": "name = prefix ... hex(this call's uuid4); names with different 32-character suffixes differ",
     },
+    "C04": {
+        "modules": ["ops"],
+        "assumptions": ["laws of tiers L/T1/T2/T3 (spec/laws.py): assumed, bounded-checked natively (spec/lawcheck.py), not yet Lean-proved",
+                        "PartialJoin cells: the join is resolved and no column is exposed by both operands without being joined on (provenance of such columns is left open by the property)"],
+        "explanation": "commute of every operation class x every node-capable existing operation class (split into cells), all targets: X is a free row sequence",
+    },
     "C05": {
         "modules": ["op_slice"],
         "assumptions": [],
